@@ -145,6 +145,21 @@ func RandomCFG(r *rng.R, p CFGParams) *Spec {
 			break
 		}
 	}
+	// names with letters outside ASCII (the lexer takes any Unicode letter; Go and TypeScript identifiers do, too)
+	if r.Chance(1, 8) {
+		ntNames := []string{"Ausdrück", "größe", "выражение", "λist", "項"}
+		tkNames := []string{"ZÄHLER", "ÉTOILE", "ЧИСЛО", "Ωmega", "数"}
+		k := r.Intn(len(ntNames))
+		s.NTs[r.Intn(len(s.NTs))].Name = ntNames[k]
+		if r.Chance(1, 2) {
+			for ti := range s.Terms {
+				if s.Terms[ti].Name != "" {
+					s.Terms[ti].Name = tkNames[k]
+					break
+				}
+			}
+		}
+	}
 	// the documented default: no %start, the start symbol is the nonterminal called `start`
 	if r.Chance(1, 10) {
 		taken := false
@@ -730,7 +745,7 @@ func Exhaustive(maxNT, maxT, maxRules, maxLen int, f func(*Spec) bool) {
 // derive each other), "unreachable" (unproductive but not referenced),
 // "start" (the start symbol itself is unproductive), "nullable-mix"
 // (unproductive nonterminal next to nullable ones).
-var UnusableKinds = []string{"undefined", "norules", "unproductive", "mutual", "unreachable", "start", "nullable-mix", "deep", "named-start", "named-start-inner"}
+var UnusableKinds = []string{"undefined", "undefined-like-alias", "undefined-like-field", "undefined-case-of-token", "norules", "unproductive", "mutual", "unreachable", "start", "nullable-mix", "deep", "named-start", "named-start-inner"}
 
 func MakeUnusable(base *Spec, kind string, r *rng.R) *Spec {
 	s := base.Clone()
@@ -762,6 +777,44 @@ func MakeUnusable(base *Spec, kind string, r *rng.R) *Spec {
 	switch kind {
 	case "undefined":
 		u := newNT("undef_sym", "")
+		refFrom(u)
+	case "undefined-like-alias", "undefined-like-field", "undefined-case-of-token":
+		// an undefined symbol that is spelled like something else the file declares: a token's "string" alias, a %union
+		// field, a token's name in the other letter case. None of these defines a grammar symbol.
+		name := "undef_sym"
+		tok := -1
+		for ti, t := range s.Terms {
+			if t.Name != "" && t.Decl == DeclToken && t.Code == 0 && !t.Redecl {
+				tok = ti
+				break
+			}
+		}
+		switch {
+		case kind == "undefined-like-alias" && tok >= 0:
+			name = "identifier_" + strings.ToLower(s.Terms[tok].Name)
+			s.Terms[tok].Alias = name
+		case kind == "undefined-like-field":
+			name = s.Fields[len(s.Fields)-1].Name
+		case kind == "undefined-case-of-token" && tok >= 0:
+			name = strings.ToLower(s.Terms[tok].Name)
+			if name == s.Terms[tok].Name {
+				name = strings.ToUpper(name)
+			}
+		}
+		for _, n := range s.NTs {
+			if n.Name == name {
+				name = "undef_sym"
+			}
+		}
+		for ti := range s.Terms {
+			if s.Terms[ti].Name == name {
+				name = "undef_sym"
+			}
+		}
+		if name == "undef_sym" {
+			s.Family = "F5:undefined"
+		}
+		u := newNT(name, "")
 		refFrom(u)
 	case "norules":
 		u := newNT("typed_norules", s.Fields[0].Name)
@@ -870,6 +923,41 @@ func ManyRulesN(r *rng.R, n int) *Spec {
 			rule.R = append(rule.R, Sym{NT: true, I: 2 + r.Intn(nargs)})
 		}
 		rule.R = append(rule.R, Sym{I: semi})
+		s.Rules = append(s.Rules, rule)
+	}
+	return s
+}
+
+// ManySymbols: a command language with more than 256 grammar symbols (262-300 keyword tokens, all of them expected in
+// the statement-start state), one command per keyword: symbol ids beyond one byte, table rows wider than 256 columns.
+func ManySymbols(r *rng.R) *Spec {
+	s := &Spec{Family: "many-symbols", StartDecl: true, KnownLALR: true}
+	s.NTs = []NT{{Name: "prog"}, {Name: "cmd"}, {Name: "val"}, {Name: "zlist"}}
+	nk := r.Range(262, 300)
+	for i := 0; i < nk; i++ {
+		s.Terms = append(s.Terms, Term{Name: fmt.Sprintf("K%03d", i), Decl: DeclToken})
+	}
+	lit := func(c byte) int {
+		s.Terms = append(s.Terms, Term{Lit: c, Decl: DeclUseOnly})
+		return len(s.Terms) - 1
+	}
+	lp, rp, semi, comma := lit('('), lit(')'), lit(';'), lit(',')
+	num := len(s.Terms)
+	s.Terms = append(s.Terms, Term{Name: "NUM", Decl: DeclToken})
+	T := func(i int) Sym { return Sym{I: i} }
+	N := func(i int) Sym { return Sym{NT: true, I: i} }
+	s.Rules = append(s.Rules, Rule{L: 0, Prec: -1}, Rule{L: 0, R: []Sym{N(0), N(1)}, Prec: -1},
+		Rule{L: 2, R: []Sym{T(num)}, Prec: -1}, Rule{L: 2, R: []Sym{T(lp), N(3), T(rp)}, Prec: -1},
+		Rule{L: 3, R: []Sym{N(2)}, Prec: -1}, Rule{L: 3, R: []Sym{N(3), T(comma), N(2)}, Prec: -1})
+	for i := 0; i < nk; i++ {
+		rule := Rule{L: 1, R: []Sym{T(i)}, Prec: -1}
+		switch r.Intn(3) {
+		case 0:
+			rule.R = append(rule.R, N(2))
+		case 1:
+			rule.R = append(rule.R, T(lp), N(2), T(rp))
+		}
+		rule.R = append(rule.R, T(semi))
 		s.Rules = append(s.Rules, rule)
 	}
 	return s
